@@ -164,6 +164,11 @@ where
             if let Some(other) = typ.get_var() {
                 let other_id = other.get_id();
                 if let Some(real_type) = self.subs.find_type_for_var(other_id) {
+                    if real_type.get_var().is_some() {
+                        // `other` has been unified with another variable which is still unbound,
+                        // that variable is the one to check (and to update the level of)
+                        return self.walk(real_type);
+                    }
                     typ = real_type;
                 } else {
                     if self.var.get_id() == other_id {
